@@ -100,6 +100,17 @@ pub fn resp_check(kind: Kind, mode: Mode, model: &Value, info: RInfo, obs: &mut 
         Mode::Members => {
             check_encoding(kind, &model, &out)
                 .map_err(|m| Fail::new(sig_of(prop, kind.name(), &m), format!("{} response: {}", kind.name(), m), case(&out)))?;
+            // the same response into a buffer that is not fresh (a reused transport buffer):
+            // the encoded message must be the same
+            let prior = [1usize, 2, 7, 64, 300, 7609][n_entries % 6];
+            let dirty = serialize_dirty(&resp, prior);
+            if dirty != out {
+                return Err(Fail::new(
+                    format!("C02:{}:depends-on-prior-buffer-contents:{}", kind.name(), if n_entries == 0 { "empty-body" } else { "with-body" }),
+                    format!("{} response encodes differently into a buffer already holding {} bytes: {} vs {}", kind.name(), prior, hex(&dirty[..dirty.len().min(24)]), hex(&out[..out.len().min(24)])),
+                    case(&dirty),
+                ));
+            }
             if kind == Kind::GetAssertion {
                 let next = build(Kind::GetNextAssertion, &model)
                     .map_err(|e| Fail::new("C02:harness:build", e, case(&out)))?;
@@ -182,8 +193,39 @@ pub fn gen_of(kind: Kind, mode: Mode) -> Gen {
     }
 }
 
+/// every small value through each unsigned response member (values code may special-case).
+/// words: [member selector (raw), value (raw)]
+fn m_uint(src: &mut Src, obs: &mut Obs) -> CaseResult {
+    let sel = src.word() as usize;
+    let val = src.word() as u64;
+    let ki = |k: i64, v: Value| (Value::int(k), v);
+    let uints: Vec<i64> = getinfo_optional().iter().filter(|(_, k)| *k == GiKind::Uint).map(|(k, _)| *k).collect();
+    let n = uints.len() + 4;
+    obs.label("uint-sweep");
+    let (kind, model) = if sel % n < uints.len() {
+        (Kind::GetInfo, Value::Map(vec![ki(1, Value::Array(vec![Value::text("U2F_V2")])), ki(3, Value::Bytes(vec![9; 16])), ki(uints[sel % n], Value::Uint(val))]))
+    } else {
+        match sel % n - uints.len() {
+            0 => (Kind::CredentialManagement, Value::Map(vec![ki(1, Value::Uint(val)), ki(2, Value::Uint(val / 3)), ki(5, Value::Uint(val)), ki(9, Value::Uint(val + 1))])),
+            1 => (Kind::ClientPin, Value::Map(vec![ki(3, Value::Uint(val % 256)), ki(5, Value::Uint((val / 256) % 256))])),
+            2 => (
+                Kind::GetAssertion,
+                Value::Map(vec![
+                    ki(1, Value::Map(vec![(Value::text("id"), Value::Bytes(vec![1])), (Value::text("type"), Value::text("public-key"))])),
+                    ki(2, Value::Bytes(vec![2; 37])),
+                    ki(3, Value::Bytes(vec![3; 70])),
+                    ki(5, Value::Uint(val)),
+                ]),
+            ),
+            _ => (Kind::GetInfo, Value::Map(vec![ki(1, Value::Array(vec![])), ki(3, Value::Bytes(vec![0; 16])), ki(6, Value::Array(vec![Value::Uint(val % 256), Value::Uint((val / 7) % 256)]))])),
+        }
+    };
+    resp_check(kind, Mode::Members, &model, RInfo::default(), obs)
+}
+pub const M_UINT: Gen = Gen { name: "c02_uint", f: m_uint };
+
 pub fn gens() -> Vec<Gen> {
-    vec![M_GI, M_MC, M_GA, M_GN, M_CP, M_CM, M_LB, M_RS, M_SE, M_VE, M_CONCRETE]
+    vec![M_UINT, M_GI, M_MC, M_GA, M_GN, M_CP, M_CM, M_LB, M_RS, M_SE, M_VE, M_CONCRETE]
 }
 
 /// every subset of k flags when 2^k is enumerable, else none + singletons + pairs + full
@@ -315,11 +357,24 @@ pub fn run_mode(ctx: &mut Ctx, mode: Mode) {
 
 pub fn run(ctx: &mut Ctx) {
     run_mode(ctx, Mode::Members);
+    // every value 0..=4200 and 2^k-1, 2^k, 2^k+1 through every unsigned member (quick: every 3rd)
+    let n_members = getinfo_optional().iter().filter(|(_, k)| *k == GiKind::Uint).count() + 4;
+    let mut vals: Vec<u32> = (0..=4200u32).collect();
+    for b in 13..32 {
+        vals.extend_from_slice(&[(1u32 << b) - 1, 1u32 << b, (1u32 << b) + 1]);
+    }
+    vals.push(u32::MAX - 1);
+    let vstep = ctx.t(3usize, 1);
+    for m in 0..n_members {
+        let vs: Vec<Vec<u32>> = vals.iter().skip(m % vstep).step_by(vstep).map(|v| vec![m as u32, *v]).collect();
+        ctx.enumerate(&M_UINT, vs.into_iter());
+    }
+    ctx.exhaustive.push("every value 0..=4200 and 2^k-1,2^k,2^k+1 through every unsigned response member (quick: every 3rd value)".into());
     let mut req = vec![
         "GetInfo", "MakeCredential", "GetAssertion", "GetNextAssertion", "ClientPin", "CredentialManagement",
         "LargeBlobs", "Reset", "Selection", "Vendor", "empty-body", "attStmt:none", "attStmt:packed",
         "attStmt:packed+x5c", "cose:P256", "cose:EcdhEsHkdf256", "cose:Ed25519", "cose:Totp",
-        "rp-icon-set-not-emitted",
+        "rp-icon-set-not-emitted", "uint-sweep",
     ];
     if GIF {
         req.push("getinfo:uint>u32");
